@@ -130,6 +130,20 @@ def _pp(s, i):
     return p, j
 
 
+class ProgOverlay:
+    """concrete bytes of an immutable buffer (the eBPF program, a `&[u8]`) at base+0..: instruction fetches get constants"""
+    immutable = True
+    def __init__(self, base, data):
+        self.rid, self.c0 = Engine.split_addr(base); self.data = bytes(data)
+    def get(self, key, default=None):
+        rid, c = key
+        if rid != self.rid: return default
+        i = (c - self.c0) % (1 << 64)
+        if i < len(self.data): return BitVecVal(self.data[i], 8)
+        return default
+    def __bool__(self): return True
+
+
 class Block:
     __slots__ = ('stmts', 'term', 'cleanup', 'pstmts')
     def __init__(self): self.stmts = []; self.term = None; self.cleanup = False; self.pstmts = None
@@ -663,7 +677,8 @@ class Engine:
     def store(self, st, addr, val, kind):
         w, _ = bvw(val.ty); n = w // 8
         st.log.append((kind, addr, n))
-        st.aux['overlay'] = None          # named bytes may be overwritten: fall back to the array
+        if not getattr(st.aux.get('overlay'), 'immutable', False):
+            st.aux['overlay'] = None      # named bytes may be overwritten: fall back to the array
         for i in range(n): st.mem = Store(st.mem, addr + i, Extract(8 * i + 7, 8 * i, val.t))
     # ---- operands / rvalues
     def operand(self, st, fr, s):
